@@ -676,11 +676,10 @@ impl<const N: usize, T> CircularBuffer<N, T> {
         debug_assert!(self.size <= N, "size out-of-bounds");
 
         let start = self.start;
-        let end = add_mod(self.start, self.size, N);
 
-        let slice = if start < end {
+        let slice = if self.size <= N - start {
             // Already contiguous; nothing to do
-            &mut self.items[start..end]
+            &mut self.items[start..start + self.size]
         } else {
             // Not contiguous; need to rotate
             self.start = 0;
